@@ -707,11 +707,14 @@ MANIFEST = dict(
          "Mathlib's sqrt, x^(1/3), cos, arccos the laws are discharged: the returned V_m satisfies the PR equation for all real inputs); "
          "partial_pressures_sum, calcPR_spec (every calc_PR result: pr_p = x*P, sum x = 1, sum pr_p = P, ln phi in [-4.6, 4.44]), "
          "phi_clamp, phi_inside_clamp, calcPR_pressure_mode, calcPR_volume_mode, fixedP_exists_iff (+ reaches/absent corollaries; model "
-         "of mb_gases and the GAS_MOLES gate), ideal_limit, ideal_limit_moles, ideal_cubic_root, ideal_gas_law, binaryFactor_symm, "
+         "of mb_gases and the GAS_MOLES gate), ideal_limit, ideal_limit_moles, ideal_cubic_root, ideal_gas_law, binaryFactor_symm, symmetricTab_sound, "
+         "binaryFactor_symm_of_check (the run-time test symmetricTab, evaluated by pmodel on the map read back from the engine on "
+         "every run, discharges the symmetry hypothesis), "
          "doubleLoop_spec / fixedV_doubled_vm / fixedV_consistent (the numerical fixed-volume path and the algebra of the known "
          "departure). Correspondence: Phreeqc::calc_PR(phase_ptrs,P,TK,V_m) and the no-argument calc_PR() of gases.cpp called through "
-         "friend access on real and synthetic databases (constants and binary parameters read back from the engine) vs the Float model at "
-         "1e-10, incl. the three-root search (f_Vm, halve) and the V_m doubling loop. Direct oracle over generated real runs: EOS 1e-4 "
+         "friend access on real and synthetic databases vs the Float model at 1e-10 (critical constants read back from the engine; "
+         "binary parameters taken from an independent reading of the GAS_BINARY_PARAMETERS text of database and input - symmetric, later "
+         "entries override - and the engine's map tied to that reading for both key orders), incl. the three-root search (f_Vm, halve) and the V_m doubling loop. Direct oracle over generated real runs: EOS 1e-4 "
          "outside the three-root region, shares summing to P, phi 1e-6 inside the clamp, fugacity = 10^SI, fixed-pressure existence "
          "(incl. phases that start empty), ideal gas law, gases as EQUILIBRIUM_PHASES.",
     note="Trusted: Lean kernel, harness/ph_gas.cpp (friend access to Phreeqc; hand-made gas unknowns for calc_PR()), libm shared by model "
